@@ -1,0 +1,27 @@
+//go:build verif
+
+// Verification hook for property C15 (add-only, compiled only with -tags verif):
+// runs RuleParser.ParseOperator on an operator string exactly as ParseRule does after the
+// directive has been split, and reports what SetOperator stored.
+
+package seclang
+
+import (
+	"io/fs"
+
+	"github.com/corazawaf/coraza/v3/internal/corazawaf"
+)
+
+// VerifC15ParseOperator calls ParseOperator(operator) on a fresh rule.
+func VerifC15ParseOperator(operator string, datasets map[string][]string, root fs.FS, dir string) (function, data string, negation bool, rule *corazawaf.Rule, err error) {
+	rule = corazawaf.NewRule()
+	rp := RuleParser{
+		options: RuleOptions{Datasets: datasets, ParserConfig: ParserConfig{Root: root, ConfigDir: dir}},
+		rule:    rule,
+	}
+	if err = rp.ParseOperator(operator); err != nil {
+		return "", "", false, nil, err
+	}
+	function, data, negation, _ = rule.VerifC15Operator()
+	return function, data, negation, rule, nil
+}
